@@ -216,18 +216,58 @@ func (e *nilEngine) analyse(d *declInfo) {
 }
 
 type nilWalker struct {
-	e      *nilEngine
-	d      *declInfo
-	sum    *nilSummary
-	record bool
-	params map[types.Object]int // parameter objects → index (receiver 0)
-	defs   map[types.Object]ast.Expr
-	nodefs map[types.Object]bool // `var x *T` without value
-	multi  map[types.Object][]ast.Expr
-	rangeV map[types.Object]ast.Expr // range value variable → ranged expression
-	resErr int                       // index of the error result or -1
-	nres   int
-	named  []types.Object
+	e        *nilEngine
+	d        *declInfo
+	sum      *nilSummary
+	record   bool
+	params   map[types.Object]int // parameter objects → index (receiver 0)
+	defs     map[types.Object]ast.Expr
+	nodefs   map[types.Object]bool // `var x *T` without value
+	multi    map[types.Object][]ast.Expr
+	rangeV   map[types.Object]ast.Expr // range value variable → ranged expression
+	resErr   int                       // index of the error result or -1
+	nres     int
+	named    []types.Object
+	onReturn func(rs *ast.ReturnStmt, f *facts)
+}
+
+// definedNonNil: e is a local whose every definition is a non-nil construction.
+func (w *nilWalker) definedNonNil(e ast.Expr, f *facts) bool {
+	id, ok := e.(*ast.Ident)
+	if !ok {
+		return false
+	}
+	o := objOf(w.d.pkg, id)
+	if o == nil {
+		return false
+	}
+	defs := w.multi[o]
+	if len(defs) == 0 {
+		return false
+	}
+	for _, d := range defs {
+		switch x := d.(type) {
+		case *ast.UnaryExpr:
+			if x.Op != token.AND {
+				return false
+			}
+		case *ast.CompositeLit:
+		case *ast.CallExpr:
+			if ab, _ := w.absent(x, 0); ab {
+				return false
+			}
+			if fn, _ := typeutil.Callee(w.d.pkg.TypesInfo, x).(*types.Func); fn != nil {
+				if fn.Pkg() != nil && strings.HasPrefix(fn.Pkg().Path(), modPath+"/") {
+					if w.e.summary(fn).mayReturnNil[0] {
+						return false
+					}
+				}
+			}
+		default:
+			return false
+		}
+	}
+	return true
 }
 
 func (w *nilWalker) run() {
@@ -675,6 +715,9 @@ func (w *nilWalker) stmt(s ast.Stmt, f *facts) (*facts, bool) {
 			w.expr(r, f)
 		}
 		w.returns(x, f)
+		if w.onReturn != nil {
+			w.onReturn(x, f)
+		}
 		return f, true
 	case *ast.BranchStmt:
 		return f, true
@@ -744,6 +787,28 @@ func (w *nilWalker) stmt(s ast.Stmt, f *facts) (*facts, bool) {
 			f, _ = w.stmt(x.Init, f)
 		}
 		ft, ff := w.cond(x.Cond, f)
+		// `if v, ok := m[k]; ok`: v and m[k] are present (non-nil by registration discipline)
+		if as, ok := x.Init.(*ast.AssignStmt); ok && len(as.Lhs) == 2 && len(as.Rhs) == 1 {
+			if ix, isIx := as.Rhs[0].(*ast.IndexExpr); isIx {
+				okObj := objOf(w.d.pkg, as.Lhs[1])
+				set := func(ff *facts) {
+					if p := w.rawPath(as.Lhs[0]); p != "" && p != "_" {
+						ff.nonnil[p] = true
+					}
+					if p := w.path(ix); p != "" {
+						ff.nonnil[p] = true
+					}
+				}
+				if id, isID := x.Cond.(*ast.Ident); isID && objOf(w.d.pkg, id) == okObj {
+					set(ft)
+				}
+				if u, isNot := x.Cond.(*ast.UnaryExpr); isNot && u.Op == token.NOT {
+					if id, isID := u.X.(*ast.Ident); isID && objOf(w.d.pkg, id) == okObj {
+						set(ff)
+					}
+				}
+			}
+		}
 		// `if v, ok := e.(T); ok` / `!ok` and `if _, ok := m[k]; ok`
 		if as, ok := x.Init.(*ast.AssignStmt); ok && len(as.Lhs) == 2 && len(as.Rhs) == 1 {
 			if ta, isTA := as.Rhs[0].(*ast.TypeAssertExpr); isTA {
